@@ -132,6 +132,15 @@ Proof.
            end; inv H; cbn; congruence.
 Qed.
 
+Lemma step_r_keeps_running v x ev y :
+  step_r v x ev = Some y -> r_running x = true -> r_running y = true.
+Proof.
+  intros H Hr. destruct ev; cbn [step_r] in H; rewrite ?Hr in H; crunch H;
+    repeat match type of H with
+           | context [match ?x with _ => _ end] => destruct x; try discriminate
+           end; inv H; cbn; auto.
+Qed.
+
 Lemma step_r_idle v bs x ev y :
   rinv v bs x -> r_pc x = RIdle -> r_running x = false ->
   lifted ev = true ->
@@ -155,6 +164,10 @@ Definition done_pc (pc : cpc) : Prop := match pc with CDone _ => True | _ => Fal
 (* Run has not yet set the inner manager going *)
 Definition pre_setup (pc : cpc) : Prop :=
   match pc with CIdle | CStarted | CDecided _ => True | _ => False end.
+
+(* Run has set the inner manager going *)
+Definition post_setup (pc : cpc) : Prop :=
+  match pc with CWaitInner | CCollect _ _ _ | CDone _ => True | _ => False end.
 
 Record cinv (v : variant) (grace : option Z) (bs : list beh) (s : cstate) : Prop := mkcinv {
   ci_inner : rinv v bs (inner s);
@@ -190,7 +203,11 @@ Record cinv (v : variant) (grace : option Z) (bs : list beh) (s : cstate) : Prop
           (tie s = false -> (fatal_count s = 1 <-> fired_early s = true));
   ci_nograce : forall c, In c (closers s) ->
                match c with Fatal d => grace = Some d | User _ => True end;
-  ci_elapsed : (0 <= elapsed s)%Z
+  ci_elapsed : (0 <= elapsed s)%Z;
+  ci_after : post_setup (c_pc s) -> r_running (inner s) = true;
+  ci_fatal0 : forall i c, nth_error (closers s) i = Some c -> is_fatal c = true -> i = 0;
+  ci_kb : forall c, nth_error (closes s) c = Some KB -> c_running s = true;
+  ci_idle_stopped : c_pc s = CIdle -> c_running s = true -> c_stopped s = true
 }.
 
 Lemma cinv_init v grace bs cls : cinv v grace bs (new_cm grace bs cls).
@@ -203,12 +220,17 @@ Proof.
   - intros c H. apply in_app_or in H. destruct H as [H|H].
     + destruct grace; [destruct H as [<-|[]]; reflexivity | destruct H].
     + apply in_map_iff in H. destruct H as [r [<- _]]. exact Logic.I.
+  - intros i c Hn Hf. destruct grace as [d|]; cbn [app] in Hn.
+    + destruct i; [reflexivity|]. cbn in Hn. apply nth_error_In in Hn.
+      apply in_map_iff in Hn. destruct Hn as [r [<- _]]. discriminate.
+    + apply nth_error_In in Hn. apply in_map_iff in Hn. destruct Hn as [r [<- _]]. discriminate.
+  - intros c H. destruct c; discriminate.
 Qed.
 
 Ltac cfin :=
   cbn [inner c_running c_closing c_stopped closers c_pc c_procs fch_closed timer_fired fired_early
        fatal_count tie reterr addcl closes run_rejected cadds elapsed w_inner w_pc w_procs w_addcl
-       w_closes w_cadds w_elapsed closing_pc done_pc pre_setup];
+       w_closes w_cadds w_elapsed closing_pc done_pc pre_setup post_setup];
   try assumption; try discriminate; try (intros; discriminate); auto;
   try (let Hx := fresh in intros Hx; exfalso; exact Hx);
   try (let Hx := fresh in intros Hx; exfalso; apply Hx; exact I);
@@ -270,7 +292,7 @@ Lemma cinv_step v grace bs s e s' : cinv v grace bs s -> step_c v s e = Some s' 
 Proof.
   intros I H.
   destruct I as [Iin Irun Inot Iearly Iclosing Iidle Istop Idone Ireterr Iclosers Icoll Idn Istarts
-                 Ikret Iacc J1 J2 J3 J4 Ing Iel].
+                 Ikret Iacc J1 J2 J3 J4 Ing Iel Iaft If0 Ikb Iis].
   destruct e; cbn [step_c step_c_gen step_c_gen] in H.
   - (* CRunCas *)
     destruct (c_running s) eqn:Er; inv H.
@@ -298,6 +320,7 @@ Proof.
     constructor; cfin.
     + eapply setup_inner; eauto.
     + intro Hs; destruct (Istop Hs) as [Hx|Hx]; [discriminate Hx | cbn in Hx; tauto].
+    + intros _. cbn [step_r] in Ey. destruct (r_running x); inv Ey; reflexivity.
   - (* CInner *)
     destruct (inner_allowed e) eqn:Eal; try discriminate.
     destruct (step_r v (inner s) e) as [x|] eqn:Ex; inv H.
@@ -311,6 +334,7 @@ Proof.
     + intros errs Hpc. destruct (Idn errs Hpc) as [? [rerrs [Hr HP]]].
       split; auto. exists rerrs. split; auto. eapply step_r_returned with (ev := e); eauto.
       unfold lifted; rewrite Eal; reflexivity.
+    + intro Hp. eapply step_r_keeps_running; eauto.
   - (* CClosing *)
     destruct (c_pc s) eqn:Epc; try discriminate.
     destruct (r_pc (inner s)) as [| | |rerrs] eqn:Eipc; try discriminate. inv H.
@@ -457,6 +481,8 @@ Proof.
       split; auto. exists rerrs. split; auto.
       eapply step_r_returned with (ev := RCloseCh); eauto.
     + intros c e Hc. apply nth_error_snoc in Hc. destruct Hc as [Hc|Hc]; [eauto | discriminate].
+    + intro Hp. eapply step_r_keeps_running; eauto.
+    + intros c Hc. apply nth_error_snoc in Hc. destruct Hc as [Hc|Hc]; [eauto | discriminate].
   - (* CCloseStep *)
     destruct (nth_error (closes s) c) as [[| |e0]|] eqn:Ec; try discriminate.
     + inv H. constructor; cfin.
@@ -466,11 +492,15 @@ Proof.
         { rewrite (nth_error_upd_same _ _ _ _ Ec) in Hc. discriminate. }
         rewrite nth_error_upd_other in Hc by auto. destruct (Ikret c0 e Hc) as [Hs He].
         split; auto. destruct (c_running s) eqn:Er; auto.
+      * intros Hpc _. destruct (c_running s) eqn:Er; auto.
     + assert (Es : c_stopped s = true) by (destruct (c_stopped s); [reflexivity|discriminate]).
       rewrite Es in H. inv H. constructor; cfin.
-      intros c0 e Hc. destruct (Nat.eq_dec c c0) as [<-|Hne].
-      { rewrite (nth_error_upd_same _ _ _ _ Ec) in Hc. inv Hc. auto. }
-      rewrite nth_error_upd_other in Hc by auto. eauto.
+      * intros c0 e Hc. destruct (Nat.eq_dec c c0) as [<-|Hne].
+        { rewrite (nth_error_upd_same _ _ _ _ Ec) in Hc. inv Hc. auto. }
+        rewrite nth_error_upd_other in Hc by auto. eauto.
+      * intros c0 Hc. destruct (Nat.eq_dec c c0) as [<-|Hne].
+        { rewrite (nth_error_upd_same _ _ _ _ Ec) in Hc. discriminate. }
+        rewrite nth_error_upd_other in Hc by auto. eauto.
   - (* CAddCloserCheck *)
     inv H. constructor; cfin.
     intros a idx Ha. apply nth_error_snoc in Ha. destruct Ha as [Ha|Ha]; [eauto|].
@@ -491,16 +521,15 @@ Proof.
         { rewrite (nth_error_upd_same _ _ _ _ Ea) in Ha. inv Ha. lia. }
         rewrite nth_error_upd_other in Ha by auto. apply Iacc in Ha. lia.
       * intros c Hc. apply in_app_or in Hc. destruct Hc as [Hc|[<-|[]]]; [apply Ing; exact Hc | exact Logic.I].
+      * intros i c Hn Hfa. apply nth_error_snoc in Hn. destruct Hn as [Hn| ->]; [eauto | discriminate].
   - (* CAddCheck *)
     destruct (c_running s) eqn:Er.
     + inv H. constructor; cfin.
     + destruct (is_fixed v).
-      * inv H. constructor; cfin.
-        intro Hpc. exfalso. apply Hpc. apply (Inot eq_refl).
+      * inv H. constructor; cfin; try (rewrite Er; assumption).
       * destruct (step_r v (inner s) (RAddCheck b)) as [x|] eqn:Ex; inv H.
-        constructor; cfin.
+        constructor; cfin; try (rewrite Er; assumption).
         { eapply rinv_step; eauto. }
-        { intro Hpc. exfalso. apply Hpc. apply (Inot eq_refl). }
         { intro Hpc. destruct (Iidle Hpc). eapply step_r_idle with (ev := RAddCheck b); eauto. }
         { intros n i errs Hpc. destruct (Icoll n i errs Hpc) as [? [? [rerrs [Hr HP]]]].
           repeat split; auto. exists rerrs. split; auto.
@@ -508,6 +537,7 @@ Proof.
         { intros errs Hpc. destruct (Idn errs Hpc) as [? [rerrs [Hr HP]]].
           split; auto. exists rerrs. split; auto.
           eapply step_r_returned with (ev := RAddCheck b); eauto. }
+        { intro Hp. eapply step_r_keeps_running; eauto. }
   - (* CAddAppend *)
     destruct (nth_error (cadds s) k) as [[|a|b]|] eqn:Ek; try discriminate.
     + destruct (lock_held s || is_fixed v) eqn:El; try discriminate.
@@ -521,6 +551,7 @@ Proof.
       * intros errs Hpc. destruct (Idn errs Hpc) as [? [rerrs [Hr HP]]].
         split; auto. exists rerrs. split; auto.
         eapply step_r_returned with (ev := RAddAppend a); eauto.
+      * intro Hp. eapply step_r_keeps_running; eauto.
     + destruct (lock_held s || negb (is_fixed v)) eqn:El; try discriminate.
       destruct (c_running s) eqn:Er.
       * inv H. constructor; cfin.
@@ -543,6 +574,9 @@ Proof.
         constructor; cfin.
         { intros n i errs Hc. rewrite Hpc in Hc. discriminate. }
         { intros errs Hc. rewrite Hpc in Hc. discriminate. }
+        { rewrite Hpc. intros []. }
+        { rewrite Er. assumption. }
+        { rewrite Er. assumption. }
 Qed.
 
 Lemma cinv_run v grace bs es : forall s s',
